@@ -25,7 +25,8 @@ def main():
                     print('STALE  %-6s %s: anchor text not found in %s' % (m['prop'], m['name'], path)); bad += 1; break
                 open(p, 'w').write(t.replace(old, new, 1))
             else:
-                r = subprocess.run([os.path.join(ROOT, 'check'), m['prop'], '--repo', tmp], stdout=subprocess.PIPE, stderr=subprocess.STDOUT, text=True,
+                ids = [m['prop']] if m['prop'] != 'ALL' else ['all']
+                r = subprocess.run([os.path.join(ROOT, 'check')] + ids + ['--repo', tmp], stdout=subprocess.PIPE, stderr=subprocess.STDOUT, text=True,
                                    env=dict(os.environ, VERIF_EVIDENCE_DIR=os.path.join(tmp, 'evidence')))
                 viol = [l for l in r.stdout.splitlines() if l.startswith('  rule=') or l.startswith('VIOLATION')]
                 if m['expect'] is None:
